@@ -50,50 +50,40 @@ theorem validation_sound_fp (cfg : Cfg) (hU : cfg.U.Nodup) (log : Log) (base las
     rawScan cfg.U cfg.maxKey spec (txLook log last own) = rawScan cfg.U cfg.maxKey spec (txLook log base own) :=
   Mvcc.validation_sound_fp cfg hU log base last own spec hv
 
+/-! ## `checkPreconditions` validates every snapshot of the transaction -/
+
+/-- the loop over `tx.snapshots` (after the repair of DESIGN K8: `continue`, not `return nil`): when it reports no
+conflict, EVERY snapshot the transaction holds — whatever the order of acquisition and however stale — is either
+taken at the last precommitted transaction (nothing was committed since) or has been validated against the
+up-to-date index. -/
+theorem commit_validates_every_snapshot (cfg : Cfg) (look : Bytes → Option Ver) (last : Nat) (rs : ReadSet)
+    (snaps : List Snap) (hb : ∀ s ∈ snaps, s.base ≤ last)
+    (hc : checkSnaps cfg look last rs snaps = true) :
+    ∀ s ∈ snaps, s.base = last ∨ valSnap cfg look rs s.pfx = true :=
+  SerialAux.checkSnaps_validates cfg look last rs snaps hb hc
+
 /-! ## serializability in commit order
 
-FULL statement (`serializable`, FALSE for the code as it is — three witnesses below):
+FULL statement (`serializable`, FALSE for the code as it is — two witnesses below):
   ∀ cfg progs sched i tx n prog mi, cfg.U.Nodup → progs[i]? = some (prog, mi) →
     (run cfg (initSys cfg progs) sched).txs[i]? = some tx → tx.status = .committed n →
     tx.trace = soloTrace cfg (run cfg (initSys cfg progs) sched).log (n - 1) prog
 What is proved: the same statement for EVERY schedule (arbitrary interleaving of API calls of any number of
-transactions, write-only commits and indexer progress, snapshots arbitrarily stale) under three decidable
-side conditions on the committed transaction, each of which excludes exactly one of the findings:
-`snapMonotone` (later-acquired snapshots are not older; always true with the default
-`SnapshotMustIncludeTxID`), `noOwnTail` (no reader segment ended on an own write), `pgetOwnFree`
-(no prefix get was answered by an own write). -/
+transactions, write-only commits and indexer progress, snapshots arbitrarily stale and acquired in any order,
+any `SnapshotMustIncludeTxID`) under two decidable side conditions on the committed transaction, each of which
+excludes exactly one of the findings: `noOwnTail` (no reader segment ended on an own write), `pgetOwnFree`
+(no prefix get was answered by an own write).
+(Until the repair of DESIGN K8 a third condition was needed, `snapMonotone`: later-acquired snapshots are not
+older.  `checkPreconditions` now validates every snapshot and the hypothesis is gone.) -/
 theorem serializable_partial (cfg : Cfg) (hU : cfg.U.Nodup) (progs : List (List Op × Option Nat)) (sched : List Step)
     (i n : Nat) (tx : TxSt) (prog : List Op) (mi : Option Nat)
     (hp : progs[i]? = some (prog, mi))
     (hi : (run cfg (initSys cfg progs) sched).txs[i]? = some tx)
     (hc : tx.status = .committed n)
-    (hmono : snapMonotone tx.snaps = true)
     (htail : noOwnTail tx.rs = true)
     (hpg : pgetOwnFree prog tx.trace = true) :
     tx.trace = soloTrace cfg (run cfg (initSys cfg progs) sched).log (n - 1) prog :=
-  serializable_of_inv cfg hU progs sched i n tx prog mi hp hi hc hmono htail hpg
-
-/-- with the default `TxOptions` (`SnapshotMustIncludeTxID = lastPrecommittedTxID`) the snapshots of a committed
-transaction are never older than the ones it acquired before: `snapMonotone` holds by itself. -/
-theorem default_snapshots_monotone (cfg : Cfg) (hU : cfg.U.Nodup) (progs : List (List Op × Option Nat)) (sched : List Step)
-    (i n : Nat) (tx : TxSt) (prog : List Op)
-    (hp : progs[i]? = some (prog, none))
-    (hi : (run cfg (initSys cfg progs) sched).txs[i]? = some tx)
-    (hc : tx.status = .committed n) :
-    snapMonotone tx.snaps = true :=
-  default_monotone_of_inv cfg hU progs sched i n tx prog hp hi hc
-
-/-- serializability for transactions opened with the default options: only the two own-write conditions remain. -/
-theorem serializable_default (cfg : Cfg) (hU : cfg.U.Nodup) (progs : List (List Op × Option Nat)) (sched : List Step)
-    (i n : Nat) (tx : TxSt) (prog : List Op)
-    (hp : progs[i]? = some (prog, none))
-    (hi : (run cfg (initSys cfg progs) sched).txs[i]? = some tx)
-    (hc : tx.status = .committed n)
-    (htail : noOwnTail tx.rs = true)
-    (hpg : pgetOwnFree prog tx.trace = true) :
-    tx.trace = soloTrace cfg (run cfg (initSys cfg progs) sched).log (n - 1) prog :=
-  serializable_of_inv cfg hU progs sched i n tx prog none hp hi hc
-    (default_monotone_of_inv cfg hU progs sched i n tx prog hp hi hc) htail hpg
+  serializable_of_inv cfg hU progs sched i n tx prog mi hp hi hc htail hpg
 
 /-! ## aborted / cancelled transactions leave no trace -/
 
@@ -159,7 +149,8 @@ theorem atomic_visibility (log : Log) (n base : Nat) (ws : WriteSet) (hn : 1 ≤
 `serializable` (full statement, NOT provable):
   ∀ cfg progs sched i tx n, (run cfg (initSys cfg progs) sched).txs[i]? = some tx → tx.status = .committed n →
     tx.trace = soloTrace cfg (run …).log (n-1) progᵢ
-Three independent counterexamples, each reproduced on the real store by the harness. -/
+Two independent counterexamples, each reproduced on the real store by the harness (a third one, DESIGN K8, has
+been repaired: `later_snapshot_validated`). -/
 
 def fcfg1 : Cfg := { idxs := [[107]], U := [[107,97],[107,99],[107,109],[107,122]] }
 def fprog1 : List Op := [.set [107,109] [1], .scan { pfx := [107] } [2], .commit]
@@ -181,14 +172,16 @@ def fsched2 : List Step :=
   [.wcommit [⟨[97,49], [1], false⟩, ⟨[98,49], [1], false⟩], .index 1 1, .wcommit [⟨[98,49], [2], false⟩],
    .index 0 2, .index 1 2, .op 0 2, .op 0 1, .op 0 0]
 
-/-- FINDING (K8, two indexes). `SnapshotMustIncludeTxID = 0`: the snapshot of index `a` is fresh (ts 2) and
-written to (`Ts() = 3 > LastPrecommittedTxID() = 2`), the snapshot of index `b`, acquired later, is the
-re-used root of ts 1.  `checkPreconditions` returns nil at the first snapshot, the stale read of `b1`
-(tx 1, overwritten by tx 2) is never validated and the transaction commits with id 3. -/
-theorem serializable_fails_later_snapshot_unvalidated :
+/-- REPAIRED (DESIGN K8, two indexes; was the witness `serializable_fails_later_snapshot_unvalidated`).
+`SnapshotMustIncludeTxID = 0`: the snapshot of index `a` is fresh (ts 2) and written to
+(`Ts() = 3 > LastPrecommittedTxID() = 2`), the snapshot of index `b`, acquired later, is the re-used root of ts 1.
+`checkPreconditions` used to `return nil` at the first snapshot and the stale read of `b1` (tx 1, overwritten by
+tx 2) was committed with id 3; it now skips only that snapshot, validates the one of `b` and the transaction is
+rejected with a read conflict, leaving no trace in the log. -/
+theorem later_snapshot_validated :
     let s := run fcfg2 (initSys fcfg2 [(fprog2, some 0)]) fsched2
-    s.txs.map (·.status) = [.committed 3] ∧
-    s.txs.map (·.trace) ≠ [soloTrace fcfg2 s.log 2 fprog2] := by decide
+    s.txs.map (·.status) = [.conflict] ∧ s.log.length = 2 ∧
+    s.txs.map (·.snaps.map (fun sn => (sn.pfx, sn.base, sn.wrote))) = [[([97], 2, true), ([98], 1, false)]] := by decide
 
 def fcfg3 : Cfg := { idxs := [[107]], U := [[107,97],[107,109],[107,122]] }
 def fprog3 : List Op := [.set [107,109] [1], .getPrefix [107] [] true, .commit]
@@ -218,7 +211,7 @@ def eprog2 : List Op := [.get [107,97] true, .set [107,99] [5], .commit]
 def esched2 : List Step := [.wcommit [⟨[107,97], [1], false⟩], .index 0 1, .op 0 1, .wcommit [⟨[107,98], [2], false⟩], .op 0 0, .op 0 0]
 example : let s := run ecfg (initSys ecfg [(eprog2, some 0)]) esched2
     s.txs.map (·.status) = [.committed 3] ∧
-    s.txs.all (fun t => snapMonotone t.snaps && noOwnTail t.rs && pgetOwnFree eprog2 t.trace) = true ∧
+    s.txs.all (fun t => noOwnTail t.rs && pgetOwnFree eprog2 t.trace) = true ∧
     s.txs.map (·.snaps.map (·.base)) = [[1]] := by decide
 
 end ImmuModel.Props.C05
